@@ -149,6 +149,24 @@ func buildReplay() (string, error) {
 }
 
 // replayBatch runs the candidates natively and returns one result per candidate.
+// cappedBuffer keeps at most max bytes and silently drops what follows.
+type cappedBuffer struct {
+	bytes.Buffer
+	max     int
+	dropped bool
+}
+
+func (b *cappedBuffer) Write(p []byte) (int, error) {
+	if room := b.max - b.Len(); room < len(p) {
+		b.dropped = true
+		if room > 0 {
+			b.Buffer.Write(p[:room])
+		}
+		return len(p), nil
+	}
+	return b.Buffer.Write(p)
+}
+
 func replayBatch(bin string, cands []*Candidate, deadline time.Duration) ([]ReplayResult, error) {
 	res := make([]ReplayResult, len(cands))
 	if len(cands) == 0 {
@@ -167,15 +185,17 @@ func replayBatch(bin string, cands []*Candidate, deadline time.Duration) ([]Repl
 	from := 0
 	for from < len(cands) {
 		cmd := exec.Command(bin, "-from", strconv.Itoa(from), "-deadline", deadline.String(), file)
-		var buf bytes.Buffer
-		cmd.Stdout = &buf
-		cmd.Stderr = &buf
+		// the native run of a counterexample may print without bound (millions of
+		// events observed, a runaway trace): keep the first 64 MiB, drop the rest
+		buf := &cappedBuffer{max: 64 << 20}
+		cmd.Stdout = buf
+		cmd.Stderr = buf
 		cmd.Env = append(os.Environ(), "GOMEMLIMIT=8GiB")
 		runErr := cmd.Run()
 		cur := -1
 		last := from - 1
-		sc := bufio.NewScanner(&buf)
-		sc.Buffer(make([]byte, 1<<20), 1<<24)
+		sc := bufio.NewScanner(&buf.Buffer)
+		sc.Buffer(make([]byte, 1<<20), 1<<27)
 		var tail []string
 		fatal := ""
 		for sc.Scan() {
@@ -390,7 +410,14 @@ func cmdCheck(args []string) int {
 			return 2
 		}
 		run := &HarnessRun{HarnessSpec: hs, fn: fn}
-		explore(pg, run, engines, seed, deadline)
+		// one harness gets at most a third of the tier budget: on a changed tree a
+		// harness can run into an unbounded path tree; what it found until then is
+		// reported, the rest of the check still runs (the run is marked truncated)
+		hd := time.Now().Add(budget / 3)
+		if hd.After(deadline) {
+			hd = deadline
+		}
+		explore(pg, run, engines, seed, hd)
 		runs = append(runs, run)
 		if !quiet || run.Truncated || run.Paths["unsupported"] > 0 {
 			fmt.Printf("  %-28s %v: %d paths %v in %.1fs%s\n", hs.Name, hs.Params, run.NPaths, run.Paths, run.Wall.Seconds(), map[bool]string{true: "  [TRUNCATED]", false: ""}[run.Truncated])
